@@ -1,0 +1,14 @@
+//! Hooks for the external verification harness; compiled only with `--cfg rpm_verif`.
+use std::sync::atomic::{AtomicU64, Ordering};
+
+static LARGE_FILE_THRESHOLD: AtomicU64 = AtomicU64::new(u32::MAX as u64);
+
+/// Combined file size above which the builder switches to the stripped ("large file") cpio format.
+pub fn large_file_threshold() -> u64 {
+    LARGE_FILE_THRESHOLD.load(Ordering::SeqCst)
+}
+
+/// Lower the large-file threshold so that the stripped cpio format can be exercised without 4 GiB of content.
+pub fn set_large_file_threshold(bytes: u64) {
+    LARGE_FILE_THRESHOLD.store(bytes, Ordering::SeqCst);
+}
